@@ -112,6 +112,7 @@ class Lab:
         self.loop.begin()
         self.gates: Dict[str, "asyncio.Future[Any]"] = {}
         self.ev: List[Tuple[Any, ...]] = []
+        self.ev_t: List[float] = []
         self.env: Dict[str, Callable[[], None]] = {}  # external one-shot events offered to the scheduler
         self.deadlock = False
         self.max_ticks = 6
@@ -121,6 +122,8 @@ class Lab:
     # ---- recording
     def rec(self, *e: Any) -> None:
         self.ev.append(e)
+        loop = getattr(self, "loop", None)
+        self.ev_t.append(loop.time() if loop is not None else 0.0)  # virtual instant of every event
         self.c.event(*e)
 
     def count(self, *prefix: Any) -> int:
@@ -181,6 +184,7 @@ class Lab:
         self.loop.shutdown()
         self.late = self.ev[n:]  # produced only by the forced cancellation at tear-down
         del self.ev[n:]
+        del self.ev_t[n:]
         del self.c.events[m:]
 
 
